@@ -1177,10 +1177,11 @@ Fixpoint pc_wf (k : wkind) (p : pc) : Prop :=
       | MPlan => (exists id i r, k = WStart id i r /\ j = i /\ qs = QMark id :: map QPush (first_msgs i base)) /\ planable base
       | MTerminal => (exists id i r, k = WStart id i r) /\ no_starttask qs
       | MBranch b' => (exists id, k = WComplete id b') /\ qs = []
-      | MEnd x => (exists id, k = WComplete id j) /\ end_ok x = true /\ no_starttask qs
+      | MEnd x => (exists id, k = WComplete id j) /\ end_ok x = true /\ no_starttask qs /\ ok = PMark
       | MBuffer n => (exists id i, k = WSignal id i n) /\ no_starttask qs
       end
   | PCommits cs next => Forall no_starttask cs /\ pc_wf k next
+  | CReadDown _ _ x | CTrackRead _ _ x _ _ _ => end_ok x = true
   | _ => True
   end.
 
@@ -1193,6 +1194,8 @@ Lemma nst_nil : no_starttask []. Proof. intros i t []. Qed.
 Lemma nst_cons q qs : (forall i t, q <> QPush (MStartTask i t)) -> no_starttask qs -> no_starttask (q :: qs).
 Proof. intros H1 H2 i t [E|E]; [eapply H1; eauto|eapply H2; eauto]. Qed.
 Ltac nst := repeat (first [apply nst_nil | apply nst_cons; [intros ? ?; discriminate|]]).
+Ltac wfc := first [apply wf_commits; [constructor; [nst|constructor]|exact I]
+                  | simpl; split; [constructor; [nst|constructor]|exact I]].
 
 Lemma nst_map_start ds : no_starttask (map QPush (map (fun d => MStartStage d 0) ds)).
 Proof. intros i t H. apply in_map_iff in H. destruct H as [m [E H]]. apply in_map_iff in H. destruct H as [d [<- _]]. discriminate. Qed.
@@ -1223,13 +1226,13 @@ Lemma wf_final id b outer st x ds :
   end_ok x = true -> pc_wf (WComplete id b) (final_pc (WComplete id b) outer id b st x ds).
 Proof.
   intros He. unfold final_pc. simpl. split; [exact I|]. split; [apply wf_retry|].
-  split; [exists id; reflexivity|]. split; [exact He|].
+  split; [exists id; reflexivity|]. split; [exact He|]. split; [|reflexivity].
   apply nst_cons; [intros ? ?; discriminate|]. destruct ds; [nst|apply nst_map_start].
 Qed.
 
 Lemma wf_track id b outer st x ds todo fuel :
   end_ok x = true -> pc_wf (WComplete id b) (track_pc (WComplete id b) outer id b st x ds todo fuel).
-Proof. intros He. unfold track_pc. destruct todo; [apply wf_final; exact He|exact I]. Qed.
+Proof. intros He. unfold track_pc. destruct todo; [apply wf_final; exact He|exact He]. Qed.
 
 (* the end status computed by complete_read passes end_ok *)
 Lemma complete_read_end_ok st x :
@@ -1255,35 +1258,35 @@ Proof.
         - apply negb_false_iff in Hz. apply andb_prop in Hz. destruct Hz as [H1 H2]. apply status_eqb_eq in H1.
           right. split; [exact H1|]. apply orb_prop in H2. unfold eff in H2. destruct (s_bypass st); simpl in H2;
             (destruct H2 as [H2|H2]; [left; exact H2|right; apply is_nil_true; exact H2]). }
-      destruct (should_skip (eff st)); [apply wf_commits; [constructor; [nst|constructor]|exact I]|].
+      destruct (should_skip (eff st)); [wfc|].
       unfold after_mutex_check, after_choice_check.
       destruct (s_mutex (eff st)); [exact Hcl|]. destruct (s_choice (eff st)); exact Hcl.
     + destruct (start_stage_late _); [exact I|]. destruct (start_stage_waits _ _); [exact I|].
       destruct (wait_exhausted _ _).
       * simpl. repeat split; auto; [exists id, i, retry; reflexivity|nst].
-      * apply wf_commits; [constructor; [nst|constructor]|exact I].
-    + apply wf_commits; [constructor; [nst|constructor]|exact I].
+      * wfc.
+    + wfc.
     + destruct (start_stage_late _); [exact I|]. destruct (start_stage_waits _ _); [exact I|].
       destruct (wait_exhausted _ _).
       * simpl. repeat split; auto; [exists id, i, retry; reflexivity|nst].
-      * apply wf_commits; [constructor; [nst|constructor]|exact I].
+      * wfc.
   - (* SReadMutex *)
     destruct (w_kind w) eqn:Hk; try discriminate. inversion H; subst. clear H. simpl in Hw.
     destruct (mutex_blocked s i (eff st)).
-    + unfold requeue_pc. apply wf_commits; [constructor; [nst|constructor]|exact I].
+    + unfold requeue_pc. wfc.
     + unfold after_mutex_check, after_choice_check. destruct (s_choice (eff st)); exact Hw.
   - (* SReadChoice *)
     destruct (w_kind w) eqn:Hk; try discriminate. inversion H; subst. clear H. simpl in Hw.
     destruct (choice_claimed s i (eff st)).
-    + unfold cancel_self_pc. apply wf_commits; [constructor; [nst|constructor]|exact I].
+    + unfold cancel_self_pc. wfc.
     + exact Hw.
   - (* SClaim *)
     destruct (w_kind w) eqn:Hk; try discriminate. inversion H; subst. clear H. simpl in Hw.
     unfold claim_step.
     destruct (fst match s_mutex (eff st) with Some k0 => acquire_claim s true k0 i mutex_claim_steals | None => (true, w_claims s) end); simpl.
-    2:{ unfold requeue_pc. apply wf_commits; [constructor; [nst|constructor]|exact I]. }
+    2:{ split; [constructor; [nst|constructor]|exact I]. }
     destruct (fst match s_choice (eff st) with Some g => _ | None => _ end); simpl.
-    2:{ unfold cancel_self_pc. apply wf_commits; [constructor; [nst|constructor]|exact I]. }
+    2:{ split; [constructor; [nst|constructor]|exact I]. }
     destruct (get_stage s i); [|exact I].
     destruct (_ && _); simpl; [|destruct claim_conc_error_swallowed; exact I].
     pose proof (claim_obj_planable st (eff_claimable _ Hw)) as Hp.
@@ -1302,22 +1305,17 @@ Proof.
   - (* CReadStage *)
     destruct (w_kind w) eqn:Hk; try discriminate. inversion H; subst. clear H. unfold complete_read.
     destruct (get_stage s b) as [st|]; [|exact I].
-    destruct (status_eqb (s_status st) NOT_STARTED); [apply wf_commits; [constructor; [nst|constructor]|exact I]|].
+    destruct (status_eqb (s_status st) NOT_STARTED); [wfc|].
     destruct (negb (complete_stage_guard (s_status st))) eqn:Hg.
-    { destruct (is_halt (s_status st)); [apply wf_commits; [constructor; [nst|constructor]|exact I]|exact I]. }
+    { destruct (is_halt (s_status st)); [wfc|exact I]. }
     apply negb_false_iff in Hg.
-    destruct (status_eqb _ RUNNING) eqn:Hr; [apply wf_commits; [constructor; [nst|constructor]|exact I]|].
+    destruct (status_eqb _ RUNNING) eqn:Hr; [wfc|].
     destruct (negb (can_transition _ _)) eqn:Hc; [exact I|]. apply negb_false_iff in Hc.
     pose proof (complete_read_end_ok _ _ Hg Hr Hc) as He.
-    destruct (success_like _); [exact I|].
-    simpl. split; [exact I|]. split; [apply wf_retry|]. split; [exists id; reflexivity|]. split; [exact He|nst].
-  - (* CReadDown: x was checked when the pc was built; end_ok is re-derived from the object held *)
-    destruct (w_kind w) eqn:Hk; try discriminate. inversion H; subst. clear H.
-    destruct (end_ok x) eqn:He; [apply wf_track; exact He|].
-    (* a CReadDown pc with an end status that fails end_ok is never built; its continuation is still well-formed
-       because apply_mod (MEnd x) ignores such an x - but pc_wf asks for end_ok, so we keep the information in the pc *)
-    unfold track_pc. destruct (filter (tracked_join s) (downstream s b)); [|exact I].
-    exfalso. simpl in Hw. exact Hw.
+    destruct (success_like _); [exact He|].
+    simpl. split; [exact I|]. split; [apply wf_retry|]. split; [exists id; reflexivity|]. split; [exact He|]. split; [nst|reflexivity].
+  - (* CReadDown *)
+    destruct (w_kind w) eqn:Hk; try discriminate. inversion H; subst. clear H. simpl in Hw. apply wf_track. exact Hw.
   - (* CTrackRead *)
     destruct (w_kind w) eqn:Hk; try discriminate. inversion H; subst. clear H. simpl in Hw.
     unfold track_read. destruct todo as [|d rest]; [apply wf_final; exact Hw|].
@@ -1332,4 +1330,733 @@ Proof.
     simpl. split; [exact I|]. split; [apply wf_retry|]. split; [exists id, i; reflexivity|nst].
   - (* WSweep *)
     destruct (w_kind w); try discriminate. inversion H; subst. exact I.
+Qed.
+
+Definition WfAll (c : cfg) : Prop := Forall wfw (snd c).
+
+Lemma wf_spawn s ks : WfAll (s, map spawn ks).
+Proof.
+  unfold WfAll. simpl. apply Forall_forall. intros w Hw. apply in_map_iff in Hw. destruct Hw as [k [<- _]].
+  unfold wfw, spawn. simpl. destruct k; exact I.
+Qed.
+
+Lemma wf_step_cfg c n : WfAll c -> WfAll (step_cfg c n).
+Proof.
+  unfold WfAll, step_cfg. intros HW.
+  destruct (nth_error (snd c) n) as [w|] eqn:Hn; [|exact HW].
+  destruct (step_worker (fst c) w) as [[[k e] p]|] eqn:Hs; [|exact HW]. simpl.
+  apply Forall_lset; [exact HW|]. unfold wfw. simpl. eapply wf_step; eauto.
+  rewrite Forall_forall in HW. apply HW. eapply nth_error_In; eauto.
+Qed.
+
+Lemma map_lset {A B} (f : A -> B) l n x y : nth_error l n = Some y -> f x = f y -> map f (list_set l n x) = map f l.
+Proof.
+  revert n. induction l as [|a l IH]; intros [|n]; simpl; try discriminate.
+  - intros H E. inversion H; subst. rewrite E. reflexivity.
+  - intros H E. f_equal. apply IH; auto.
+Qed.
+
+Lemma kinds_step c n : map w_kind (snd (step_cfg c n)) = map w_kind (snd c).
+Proof.
+  unfold step_cfg. destruct (nth_error (snd c) n) as [w|] eqn:Hn; [|reflexivity].
+  destruct (step_worker (fst c) w) as [[[k e] p]|]; [|reflexivity]. simpl.
+  eapply map_lset; eauto.
+Qed.
+
+(* a generic induction principle: an invariant of the whole configuration that every step preserves, given the three
+   structural invariants (OCC freshness, well-formed pcs, live execution) *)
+Lemma run_conc_cfg_inv (P : cfg -> Prop) :
+  (forall c n, FreshAll c -> WfAll c -> P c -> P (step_cfg c n)) ->
+  forall sched c, FreshAll c -> WfAll c -> P c -> P (run_conc sched c).
+Proof.
+  intros Hstep. unfold run_conc. induction sched as [|n r IH]; simpl; intros c HF HW HP; [exact HP|].
+  apply IH; [apply fresh_step, HF|apply wf_step_cfg, HW|apply Hstep; auto].
+Qed.
+
+(* ---- C04_one_start_task ---- *)
+Definition is_starttask (i : nat) (r : qrow) : bool := match q_msg r with MStartTask i' _ => i' =? i | _ => false end.
+Definition st_count (i : nat) (s : state) : nat := length (filter (is_starttask i) (w_queue s)).
+Definition pending_b (s : state) (i : nat) : bool :=
+  match get_stage s i with Some row => s_plan_pending row | None => false end.
+(* StartTask rows for stage i + 1 while its plan commit is outstanding *)
+Definition psi (i : nat) (s : state) : nat := st_count i s + b2n (pending_b s i).
+
+Lemma st_count_qop i s q :
+  (forall t, q <> QPush (MStartTask i t)) -> st_count i (apply_qop s q) = st_count i s.
+Proof.
+  intros H. destruct q as [m|id]; simpl; [|reflexivity].
+  unfold st_count. simpl. rewrite filter_app, app_length. simpl.
+  unfold is_starttask at 2. simpl. destruct m; simpl; try lia.
+  destruct (s0 =? i) eqn:E; simpl; [|lia]. apply Nat.eqb_eq in E. subst. exfalso. eapply H. reflexivity.
+Qed.
+
+Lemma st_count_qops i qs : forall s, (forall t, ~ In (QPush (MStartTask i t)) qs) -> st_count i (apply_qops s qs) = st_count i s.
+Proof.
+  unfold apply_qops. induction qs as [|q qs IH]; simpl; intros s H; [reflexivity|].
+  rewrite IH by (intros t Ht; eapply H; right; exact Ht).
+  apply st_count_qop. intros t E. eapply H. left. exact E.
+Qed.
+
+Lemma step_eq_nst s w k qs p : wfw w -> step_worker s w = Some (k, EQ qs, p) -> no_starttask qs.
+Proof.
+  unfold wfw, step_worker. destruct (w_pc w) eqn:Hpc; intros Hw H; try discriminate;
+    try (destruct (w_kind w); inversion H; fail).
+  - destruct (w_kind w); try discriminate. inversion H.
+    pose proof (claim_step_effect s id i retry st) as He. rewrite H2 in He. contradiction.
+  - destruct (cas_ok s j base phase); inversion H.
+  - simpl in Hw. destruct Hw as [Hcs _]. destruct cs as [|c rest]; inversion H; subst; [nst|]. inversion Hcs; assumption.
+  - inversion H; subst. nst.
+Qed.
+
+Lemma apply_mod_pending m o : m <> MPlan -> s_plan_pending (apply_mod m o) = s_plan_pending o.
+Proof.
+  destruct m; simpl; intros H; try congruence; try reflexivity.
+  - destruct (status_eqb (s_status o) NOT_STARTED); reflexivity.
+  - destruct (end_ok x); reflexivity.
+Qed.
+
+Lemma pending_other s e i :
+  (match e with EPut j _ _ => j <> i | EClaim j _ _ _ => j <> i | _ => True end) ->
+  pending_b (apply_effect s e) i = pending_b s i.
+Proof. intros H. unfold pending_b. rewrite effect_stages_other by exact H. reflexivity. Qed.
+
+Lemma st_count_put i s j st : st_count i (put_stage j st s) = st_count i s.
+Proof. reflexivity. Qed.
+
+Lemma st_count_plan i s id row :
+  st_count i (apply_qops s (QMark id :: map QPush (first_msgs i row))) = st_count i s + (if is_nil (s_tasks row) then 0 else 1).
+Proof.
+  unfold first_msgs, apply_qops, st_count. destruct (s_tasks row); simpl.
+  - rewrite filter_app, app_length. simpl. lia.
+  - rewrite filter_app, app_length. simpl. unfold is_starttask at 2. simpl. rewrite Nat.eqb_refl. simpl. lia.
+Qed.
+
+Lemma psi_put_other s j row m qs i :
+  get_stage s j = Some row -> m <> MPlan -> (forall t, ~ In (QPush (MStartTask i t)) qs) ->
+  psi i (apply_effect s (EPut j (apply_mod m row) qs)) = psi i s.
+Proof.
+  intros Hr Hm Hn. unfold psi. f_equal.
+  - simpl. rewrite st_count_qops by exact Hn. reflexivity.
+  - f_equal. destruct (Nat.eq_dec j i) as [->|Hne]; [|apply pending_other; exact Hne].
+    unfold pending_b. erewrite effect_stage_put by exact Hr. rewrite Hr. apply apply_mod_pending. exact Hm.
+Qed.
+
+Lemma psi_effect s w k e p i :
+  Fresh s w -> wfw w -> step_worker s w = Some (k, e, p) ->
+  psi i (apply_effect s e) + starts i s <= psi i s + starts i (apply_effect s e).
+Proof.
+  intros HF HW Hs. unfold psi. destruct e as [|qs|j cl obj fr|j new qs|].
+  - simpl. lia.
+  - pose proof (step_eq_nst _ _ _ _ _ HW Hs) as Hn.
+    rewrite pending_other by exact I. simpl. rewrite starts_qops, st_count_qops by (intros t; apply Hn). lia.
+  - destruct (step_claim_sem _ _ _ _ _ _ _ _ HF Hs) as [id [retry [row [Hk [Hpc [Hr Hc]]]]]].
+    apply claim_step_claim in Hc. destruct Hc as [_ [-> [-> _]]].
+    assert (st_count i (apply_effect s (EClaim j cl (claim_obj row) (negb (status_eqb (s_status (eff row)) claim_phase_zombie)))) = st_count i s) as ->
+      by (simpl; destruct (negb _); reflexivity).
+    destruct (Nat.eq_dec j i) as [->|Hne].
+    + unfold pending_b at 1. erewrite effect_stage_claim by exact Hr. unfold pending_b. rewrite Hr.
+      unfold claim_obj. destruct (status_eqb (s_status (eff row)) claim_phase_zombie) eqn:Hz; simpl.
+      * unfold starts. simpl. unfold eff. destruct (s_bypass row); simpl; lia.
+      * unfold starts. simpl. rewrite Nat.eqb_refl. simpl. destruct (s_plan_pending row); simpl; lia.
+    + rewrite pending_other by exact Hne.
+      assert (starts i (apply_effect s (EClaim j cl (claim_obj row) (negb (status_eqb (s_status (eff row)) claim_phase_zombie)))) = starts i s) as ->; [|lia].
+      simpl. destruct (negb _); unfold starts; simpl; [|reflexivity].
+      destruct (j =? i) eqn:E; [apply Nat.eqb_eq in E; congruence|reflexivity].
+  - destruct (step_put_sem _ _ _ _ _ _ _ HF Hs) as [row [m [base [ph [ok [fl [Hpc [Hr [-> [-> _]]]]]]]]]].
+    assert (starts i (apply_effect s (EPut j (apply_mod m row) qs)) = starts i s) as -> by (simpl; rewrite starts_qops; reflexivity).
+    unfold wfw in HW. rewrite Hpc in HW. simpl in HW. destruct HW as [_ [_ HW]].
+    destruct m.
+    + (* MPlan *)
+      destruct HW as [[id [i' [r [Hk [-> ->]]]]] [Hrun Hpl]].
+      destruct (Nat.eq_dec i' i) as [->|Hne].
+      * unfold pending_b at 1. erewrite effect_stage_put by exact Hr.
+        replace (s_plan_pending (apply_mod MPlan row)) with false by reflexivity.
+        unfold pending_b. rewrite Hr. unfold apply_effect. rewrite st_count_plan, st_count_put.
+        destruct (s_tasks row) as [|t0 ts] eqn:Ht; simpl.
+        -- destruct (s_plan_pending row); simpl; lia.
+        -- destruct Hpl as [Hp|Hp]; [|discriminate]. rewrite Hp. simpl. lia.
+      * rewrite pending_other by exact Hne. simpl.
+        rewrite st_count_qops; [unfold st_count; simpl; lia|].
+        intros t E. unfold first_msgs in E. destruct (s_tasks row); simpl in E; destruct E as [E|[]];
+          [discriminate|inversion E; congruence].
+    + destruct HW as [_ Hn]. fold (psi i (apply_effect s (EPut j (apply_mod MTerminal row) qs))). fold (psi i s).
+      rewrite (psi_put_other s j row MTerminal qs i Hr) by (try discriminate; intros t; apply Hn). lia.
+    + destruct HW as [_ ->]. fold (psi i (apply_effect s (EPut j (apply_mod (MBranch b) row) []))). fold (psi i s).
+      rewrite (psi_put_other s j row (MBranch b) [] i Hr) by (try discriminate; intros t []). lia.
+    + destruct HW as [_ [_ [Hn _]]]. fold (psi i (apply_effect s (EPut j (apply_mod (MEnd x) row) qs))). fold (psi i s).
+      rewrite (psi_put_other s j row (MEnd x) qs i Hr) by (try discriminate; intros t; apply Hn). lia.
+    + destruct HW as [_ Hn]. fold (psi i (apply_effect s (EPut j (apply_mod (MBuffer name) row) qs))). fold (psi i s).
+      rewrite (psi_put_other s j row (MBuffer name) qs i Hr) by (try discriminate; intros t; apply Hn). lia.
+  - rewrite pending_other by exact I.
+    assert (starts i (apply_effect s ESweep) = starts i s) as -> by (simpl; destruct (is_complete (w_status s)); reflexivity).
+    assert (st_count i (apply_effect s ESweep) = st_count i s) as -> by (simpl; destruct (is_complete (w_status s)); reflexivity). lia.
+Qed.
+
+Lemma psi_step c n i : FreshAll c -> WfAll c ->
+  psi i (fst (step_cfg c n)) + starts i (fst c) <= psi i (fst c) + starts i (fst (step_cfg c n)).
+Proof.
+  unfold FreshAll, WfAll, step_cfg. intros HF HW.
+  destruct (nth_error (snd c) n) as [w|] eqn:Hn; [|lia].
+  destruct (step_worker (fst c) w) as [[[k e] p]|] eqn:Hs; [|lia]. simpl.
+  rewrite Forall_forall in HF, HW. pose proof (nth_error_In _ _ Hn) as Hin.
+  eapply psi_effect; eauto.
+Qed.
+
+Theorem psi_run sched i : forall c, FreshAll c -> WfAll c ->
+  psi i (fst (run_conc sched c)) + starts i (fst c) <= psi i (fst c) + starts i (fst (run_conc sched c)).
+Proof.
+  unfold run_conc. induction sched as [|n r IH]; simpl; intros c HF HW; [lia|].
+  specialize (IH (step_cfg c n) (fresh_step c n HF) (wf_step_cfg c n HW)). pose proof (psi_step c n i HF HW). lia.
+Qed.
+
+(* C04_one_start_task: the StartTask rows pushed for stage i during any run are at most: one per claim commit of the
+   run (<= 1 by one_claim) + one if a plan commit was already outstanding *)
+Theorem one_start_task s ks sched i :
+  st_count i (fst (run_conc sched (s, map spawn ks))) <= st_count i s + b2n (pending_b s i) + b2n (not_started s i).
+Proof.
+  pose proof (psi_run sched i (s, map spawn ks) (fresh_spawn s ks) (wf_spawn s ks)) as H1.
+  pose proof (one_claim s ks sched i) as H2. unfold psi in H1. simpl in H1. lia.
+Qed.
+
+(* ------------------------------------------------------------------------------------------ *)
+(* part 7: C04_join_bump_safe                                                                  *)
+(* ------------------------------------------------------------------------------------------ *)
+
+(* fields no handler ever changes *)
+Definition sfields (st : stage) := (s_reqs st, s_join st, s_tasks st, s_cof st, s_fp st).
+Definition statics (s : state) := map sfields (w_stages s).
+
+Lemma same_static_sfields a b : same_static a b -> sfields a = sfields b.
+Proof. intros [H1 [H2 [_ [_ [_ [H6 [H7 H8]]]]]]]. unfold sfields. congruence. Qed.
+
+Lemma statics_effect s w k e p : Fresh s w -> step_worker s w = Some (k, e, p) -> statics (apply_effect s e) = statics s.
+Proof.
+  intros HF Hs. unfold statics. destruct e as [|qs|i cl obj fr|i new qs|].
+  - reflexivity.
+  - simpl. rewrite qops_stages. reflexivity.
+  - destruct (step_claim_sem _ _ _ _ _ _ _ _ HF Hs) as [id [retry [row [_ [_ [Hr Hc]]]]]].
+    apply claim_step_claim in Hc. destruct Hc as [_ [-> _]].
+    assert (w_stages (apply_effect s (EClaim i cl (claim_obj row) fr)) = list_set (w_stages s) i (claim_obj row)) as -> by (simpl; destruct fr; reflexivity).
+    eapply map_lset; [exact Hr|]. apply same_static_sfields, claim_obj_static.
+  - destruct (step_put_sem _ _ _ _ _ _ _ HF Hs) as [row [m [base [ph [ok [fl [_ [Hr [_ [-> _]]]]]]]]]].
+    simpl. rewrite qops_stages. simpl. eapply map_lset; [exact Hr|]. apply same_static_sfields, apply_mod_static.
+  - simpl. destruct (is_complete (w_status s)); reflexivity.
+Qed.
+
+Lemma statics_get s s' j : statics s = statics s' -> option_map sfields (get_stage s j) = option_map sfields (get_stage s' j).
+Proof. unfold statics, get_stage. intros H. rewrite <- !nth_error_map. rewrite H. reflexivity. Qed.
+
+Lemma statics_length s s' : statics s = statics s' -> length (w_stages s) = length (w_stages s').
+Proof. unfold statics. intros H. rewrite <- (map_length sfields (w_stages s)), H, map_length. reflexivity. Qed.
+
+Lemma downstream_statics s s' b : statics s = statics s' -> downstream s b = downstream s' b.
+Proof.
+  intros H. unfold downstream. rewrite (statics_length _ _ H). apply filter_ext. intros j.
+  pose proof (statics_get s s' j H) as Hj.
+  destruct (get_stage s j) as [d|], (get_stage s' j) as [d'|]; simpl in Hj; try discriminate; try reflexivity.
+  inversion Hj. unfold sfields in H1. inversion H1. congruence.
+Qed.
+
+Lemma downstream_some s b d : In d (downstream s b) -> exists row, get_stage s d = Some row.
+Proof.
+  unfold downstream. intros H. apply filter_In in H. destruct H as [_ H].
+  destruct (get_stage s d) as [row|]; [eauto|discriminate].
+Qed.
+
+(* the CompleteStage handler of stage b, reading now, goes on to the success branch with end status x *)
+Definition cok (s : state) (b : nat) (x : status) : Prop :=
+  exists row, get_stage s b = Some row /\ s_status row = RUNNING /\
+    determine_status RUNNING (s_cof row) (s_fp row) [] (s_tasks row) [] = x /\
+    status_eqb x RUNNING = false /\ can_transition RUNNING x = true /\ success_like x = true.
+
+Lemma cok_read s k outer id b x :
+  cok s b x -> exists row, get_stage s b = Some row /\ complete_read s k outer id b = CReadDown outer row x.
+Proof.
+  intros [row [Hr [Hst [Hx [Hnr [Hct Hsl]]]]]]. exists row. split; [exact Hr|].
+  unfold complete_read. rewrite Hr, Hst. simpl. rewrite Hx, Hnr, Hct, Hsl. reflexivity.
+Qed.
+
+Lemma read_cok s k outer id b outer' st x :
+  complete_read s k outer id b = CReadDown outer' st x -> outer' = outer /\ get_stage s b = Some st /\ cok s b x.
+Proof.
+  unfold complete_read. destruct (get_stage s b) as [row|] eqn:Hr; [|discriminate].
+  destruct (status_eqb (s_status row) NOT_STARTED); [discriminate|].
+  destruct (negb (complete_stage_guard (s_status row))) eqn:Hg.
+  { destruct (is_halt (s_status row)); discriminate. }
+  apply negb_false_iff in Hg. unfold complete_stage_guard in Hg. rewrite negb_involutive in Hg. apply status_eqb_eq in Hg.
+  rewrite Hg.
+  destruct (status_eqb (determine_status RUNNING (s_cof row) (s_fp row) [] (s_tasks row) []) RUNNING) eqn:Hnr; [discriminate|].
+  destruct (negb (can_transition RUNNING _)) eqn:Hct; [discriminate|]. apply negb_false_iff in Hct.
+  destruct (success_like _) eqn:Hsl; [|discriminate].
+  intros H. inversion H; subst. repeat split. exists st. repeat split; auto.
+Qed.
+
+Lemma apply_mod_status_keep m o :
+  (match m with MEnd _ => False | _ => True end) -> s_status o = RUNNING -> s_status (apply_mod m o) = RUNNING.
+Proof. destruct m; simpl; intros H Hs; try contradiction; auto. rewrite Hs. simpl. exact Hs. Qed.
+
+(* cok survives every step that is not the final commit of a CompleteStage worker of b *)
+Lemma cok_effect s w k e p b x :
+  Fresh s w -> wfw w -> step_worker s w = Some (k, e, p) -> cok s b x ->
+  (forall id, w_kind w = WComplete id b -> match w_pc w with PCas _ _ _ (MEnd _) _ _ _ => False | _ => True end) ->
+  cok (apply_effect s e) b x.
+Proof.
+  intros HF HW Hs [row [Hr [Hst [Hx Hrest]]]] Hnf. destruct e as [|qs|i cl obj fr|i new qs|].
+  - exists row. auto.
+  - exists row. rewrite effect_stages_other by exact I. auto.
+  - destruct (Nat.eq_dec i b) as [->|Hne]; [|exists row; rewrite effect_stages_other by exact Hne; auto].
+    destruct (step_claim_sem _ _ _ _ _ _ _ _ HF Hs) as [id [retry [row' [_ [_ [Hr' Hc]]]]]].
+    rewrite Hr in Hr'. inversion Hr'; subst row'.
+    apply claim_step_claim in Hc. destruct Hc as [_ [-> _]].
+    exists (claim_obj row). split; [eapply effect_stage_claim; eauto|]. split; [apply claim_obj_status|].
+    destruct (claim_obj_static row) as [_ [_ [_ [_ [_ [Ht [Hc Hf]]]]]]]. rewrite Ht, Hc, Hf. auto.
+  - destruct (Nat.eq_dec i b) as [->|Hne]; [|exists row; rewrite effect_stages_other by exact Hne; auto].
+    destruct (step_put_sem _ _ _ _ _ _ _ HF Hs) as [row' [m [base [ph [ok [fl [Hpc [Hr' [_ [-> _]]]]]]]]]].
+    rewrite Hr in Hr'. inversion Hr'; subst row'.
+    assert (match m with MEnd _ => False | _ => True end) as Hm.
+    { destruct m; try exact I. unfold wfw in HW. rewrite Hpc in HW. simpl in HW.
+      destruct HW as [_ [_ [[id Hk] _]]]. specialize (Hnf id Hk). rewrite Hpc in Hnf. exact Hnf. }
+    exists (apply_mod m row). split; [eapply effect_stage_put; eauto|]. split; [apply apply_mod_status_keep; auto|].
+    destruct (apply_mod_static m row) as [_ [_ [_ [_ [_ [Ht [Hc Hf]]]]]]]. rewrite Ht, Hc, Hf. auto.
+  - exists row. rewrite effect_stages_other by exact I. auto.
+Qed.
+
+(* pcs of a CompleteStage worker from which it will still push the downstream StartStage (or keep its message) *)
+Definition tokpc (p : pc) : bool :=
+  match p with
+  | CReadStage o => o <? reruns              (* a re-run by retry_on_concurrency_error *)
+  | CReadDown _ _ _ | CTrackRead _ _ _ _ _ _ | PRaised => true
+  | PCas _ _ _ (MBranch _) _ _ _ => true
+  | PCas _ _ _ (MEnd x) _ _ _ => success_like x
+  | _ => false
+  end.
+
+Definition final_qs (id : nat) (ds : list nat) : list qop :=
+  QMark id :: map QPush (match ds with [] => [MCompleteWorkflow 0] | _ => map (fun d => MStartStage d 0) ds end).
+
+Fixpoint region (s : state) (id b : nat) (p : pc) : Prop :=
+  match p with
+  | CReadStage o => o <= reruns
+  | CReadDown o _ x => o <= reruns /\ cok s b x
+  | CTrackRead o _ x ds todo _ => o <= reruns /\ cok s b x /\ ds = downstream s b /\ incl todo ds
+  | PCas d _ _ (MBranch _) _ ok fail =>
+      In d (downstream s b) /\ (exists x, cok s b x) /\ tokpc ok = true /\ tokpc fail = true /\
+      region s id b ok /\ region s id b fail
+  | PCas _ _ _ (MEnd x) qs ok fail =>
+      region s id b fail /\
+      (success_like x = true -> cok s b x /\ qs = final_qs id (downstream s b) /\ tokpc fail = true)
+  | PCommits _ next => region s id b next
+  | _ => True
+  end.
+
+Lemma region_commits s id b cs next : region s id b next -> region s id b (commits cs next).
+Proof. destruct cs; simpl; auto. Qed.
+
+Definition regionw (s : state) (w : worker) : Prop :=
+  match w_kind w with WComplete id b => region s id b (w_pc w) | _ => True end.
+
+Lemma region_transport s s' id b p :
+  statics s' = statics s -> (forall x, cok s b x -> cok s' b x) -> region s id b p -> region s' id b p.
+Proof.
+  intros Hst Hc. induction p; simpl; auto.
+  - (* PCas *)
+    destruct m; auto.
+    + intros [Hd [[x Hx] [Ho [Hf [Ro Rf]]]]]. rewrite (downstream_statics _ _ b Hst). repeat split; auto. exists x. auto.
+    + intros [Rf Hs]. split; [auto|]. intros Hsl. destruct (Hs Hsl) as [H1 [H2 H3]].
+      rewrite (downstream_statics _ _ b Hst). auto.
+  - intros [Ho Hx]. auto.
+  - intros [Ho [Hx [Hds Hi]]]. rewrite (downstream_statics _ _ b Hst). auto.
+Qed.
+
+Lemma tok_retry id b outer : outer <= reruns -> tokpc (retry_or_raise (WComplete id b) outer) = true.
+Proof. destruct outer; simpl; auto. intros H. apply Nat.ltb_lt. lia. Qed.
+
+Lemma region_retry s id b outer : outer <= reruns -> region s id b (retry_or_raise (WComplete id b) outer).
+Proof. destruct outer; simpl; auto. intros H. lia. Qed.
+
+Lemma region_final s id b outer st x ds :
+  outer <= reruns -> cok s b x -> ds = downstream s b ->
+  region s id b (final_pc (WComplete id b) outer id b st x ds) /\ tokpc (final_pc (WComplete id b) outer id b st x ds) = true.
+Proof.
+  intros Ho Hx Hds. unfold final_pc. simpl. split.
+  - split; [apply region_retry; exact Ho|]. intros _. subst ds. split; [exact Hx|]. split; [reflexivity|apply tok_retry; exact Ho].
+  - destruct Hx as [row [_ [_ [_ [_ [_ Hsl]]]]]]. exact Hsl.
+Qed.
+
+Lemma region_track s id b outer st x ds todo fuel :
+  outer <= reruns -> cok s b x -> ds = downstream s b -> incl todo ds ->
+  region s id b (track_pc (WComplete id b) outer id b st x ds todo fuel) /\
+  tokpc (track_pc (WComplete id b) outer id b st x ds todo fuel) = true.
+Proof.
+  intros Ho Hx Hds Hi. unfold track_pc. destruct todo; [apply region_final; auto|]. simpl. auto.
+Qed.
+
+(* one step of a CompleteStage worker keeps its region facts (evaluated in the state BEFORE the step) *)
+Lemma region_step s w k e p id b :
+  w_kind w = WComplete id b -> wfw w -> region s id b (w_pc w) -> step_worker s w = Some (k, e, p) -> region s id b p.
+Proof.
+  intros Hk HW HR. unfold step_worker. rewrite Hk. revert HR. destruct (w_pc w) eqn:Hpc; intros HR H; try discriminate.
+  - (* PCas *)
+    unfold wfw in HW. rewrite Hpc, Hk in HW. simpl in HW. destruct HW as [_ [_ HW]].
+    destruct m; simpl in HR.
+    + destruct HW as [[id' [i' [r' [E _]]]] _]. discriminate.
+    + destruct HW as [[id' [i' [r' E]]] _]. discriminate.
+    + destruct HR as [_ [_ [_ [_ [Ro Rf]]]]]. destruct (cas_ok s j base phase); inversion H; subst; assumption.
+    + destruct HW as [_ [_ [_ ->]]]. destruct HR as [Rf _]. destruct (cas_ok s j base phase); inversion H; subst; [exact I|exact Rf].
+    + destruct HW as [[id' [i' E]] _]. discriminate.
+  - simpl in HR. destruct cs; inversion H; subst; [exact HR|]. apply region_commits. exact HR.
+  - inversion H; subst. exact I.
+  - (* CReadStage *)
+    inversion H; subst. clear H. simpl in HR. unfold complete_read.
+    destruct (get_stage s b) as [row|] eqn:Hr; [|exact I].
+    destruct (status_eqb (s_status row) NOT_STARTED) eqn:Hns; [exact I|].
+    destruct (negb (complete_stage_guard (s_status row))) eqn:Hg. { destruct (is_halt (s_status row)); exact I. }
+    apply negb_false_iff in Hg. unfold complete_stage_guard in Hg. rewrite negb_involutive in Hg. apply status_eqb_eq in Hg.
+    rewrite Hg.
+    destruct (status_eqb (determine_status RUNNING (s_cof row) (s_fp row) [] (s_tasks row) []) RUNNING) eqn:Hnr; [exact I|].
+    destruct (negb (can_transition RUNNING _)) eqn:Hct; [exact I|]. apply negb_false_iff in Hct.
+    destruct (success_like _) eqn:Hsl; simpl.
+    + split; [exact HR|]. exists row. repeat split; auto.
+    + split; [apply region_retry; exact HR|]. intros Hx. congruence.
+  - (* CReadDown *)
+    inversion H; subst. clear H. simpl in HR. destruct HR as [Ho Hx].
+    apply region_track; auto. intros d Hd. apply filter_In in Hd. tauto.
+  - (* CTrackRead *)
+    inversion H; subst. clear H. simpl in HR. destruct HR as [Ho [Hx [Hds Hi]]].
+    unfold track_read. destruct todo as [|d rest]; [apply region_final; auto|].
+    destruct (get_stage s d) as [fr|]; [|exact I].
+    assert (incl rest ds) as Hi' by (intros y Hy; apply Hi; right; exact Hy).
+    destruct (mem_nat b (s_branches fr)); [apply region_track; auto|].
+    simpl. split; [subst ds; apply Hi; left; reflexivity|]. split; [eauto|].
+    destruct (region_track s id b outer st x ds rest track_tries Ho Hx Hds Hi') as [R1 T1].
+    split; [exact T1|].
+    destruct fuel as [|[|f]]; simpl; (split; [try (apply tok_retry; exact Ho); reflexivity|]); (split; [exact R1|]);
+      try (apply region_retry; exact Ho); auto.
+Qed.
+
+(* ---- tokens ---- *)
+Definition version_of (s : state) (j : nat) : Z := match get_stage s j with Some row => s_version row | None => 0%Z end.
+
+(* the join stage is still NOT_STARTED and its version is not the one it had when the run began: some non-claimant
+   writer has bumped it (a claim / plan / terminal store would have moved it out of NOT_STARTED) *)
+Definition bumped (s0 s : state) (j : nat) : Prop := not_started s j = true /\ version_of s j <> version_of s0 j.
+
+(* a StartStage(j) row pushed during the run (no worker of the run handles it: their messages were polled before) *)
+Definition tok_queue (s0 s : state) (j : nat) : Prop :=
+  exists r, In r (w_queue s) /\ q_msg r = MStartStage j 0 /\ w_next s0 <= q_id r.
+
+(* a CompleteStage worker of an upstream of j that is past its first read and has not yet committed its final
+   transaction (which pushes StartStage(j)), or whose handler raised (the CompleteStage message stays in the queue) *)
+Definition tok_worker (c : cfg) (j : nat) : Prop :=
+  exists n w id b, nth_error (snd c) n = Some w /\ w_kind w = WComplete id b /\ In j (downstream (fst c) b) /\
+                   tokpc (w_pc w) = true /\ (w_pc w = PRaised \/ exists x, cok (fst c) b x).
+
+Definition no_signal (ks : list wkind) : Prop := forall id i n, ~ In (WSignal id i n) ks.
+Definition complete_of (k : wkind) : list nat := match k with WComplete _ b => [b] | _ => [] end.
+
+Record jb_inv (s0 : state) (ks : list wkind) (j : nat) (c : cfg) : Prop := {
+  jb_kinds : map w_kind (snd c) = ks;
+  jb_region : forall n w, nth_error (snd c) n = Some w -> regionw (fst c) w;
+  jb_next : w_next s0 <= w_next (fst c);
+  jb_tok : bumped s0 (fst c) j -> tok_queue s0 (fst c) j \/ tok_worker c j;
+}.
+
+Lemma nodup_app_r {A} (l1 l2 : list A) : NoDup (l1 ++ l2) -> NoDup l2.
+Proof. induction l1 as [|a l IH]; simpl; auto. intros H. inversion H; auto. Qed.
+
+Lemma nodup_app_disj {A} (l1 l2 : list A) x : NoDup (l1 ++ l2) -> In x l1 -> In x l2 -> False.
+Proof.
+  induction l1 as [|a l IH]; simpl; [tauto|]. intros H [->|H1] H2; inversion H; subst.
+  - apply H3. apply in_or_app. auto.
+  - eauto.
+Qed.
+
+Lemma nodup_flat_map_index {A B} (f : A -> list B) (l : list A) n1 n2 a1 a2 b :
+  NoDup (flat_map f l) -> nth_error l n1 = Some a1 -> nth_error l n2 = Some a2 -> In b (f a1) -> In b (f a2) -> n1 = n2.
+Proof.
+  revert n1 n2. induction l as [|a l IH]; intros n1 n2 Hn H1 H2 B1 B2; [destruct n1; discriminate|].
+  simpl in Hn. destruct n1 as [|n1], n2 as [|n2]; simpl in H1, H2; auto.
+  - inversion H1; subst. exfalso. eapply nodup_app_disj; [exact Hn|exact B1|].
+    apply in_flat_map. exists a2. split; [eapply nth_error_In; eauto|exact B2].
+  - inversion H2; subst. exfalso. eapply nodup_app_disj; [exact Hn|exact B2|].
+    apply in_flat_map. exists a1. split; [eapply nth_error_In; eauto|exact B1].
+  - f_equal. eapply IH; eauto. eapply nodup_app_r; eauto.
+Qed.
+
+Lemma kinds_nth (c : cfg) ks n w : map w_kind (snd c) = ks -> nth_error (snd c) n = Some w -> nth_error ks n = Some (w_kind w).
+Proof. intros <- H. rewrite nth_error_map, H. reflexivity. Qed.
+
+(* queue rows only accumulate, ids only grow *)
+Lemma qop_queue_incl s q r : In r (w_queue s) -> In r (w_queue (apply_qop s q)).
+Proof. destruct q; simpl; auto. intros H. apply in_or_app. auto. Qed.
+Lemma qops_queue_incl qs : forall s r, In r (w_queue s) -> In r (w_queue (apply_qops s qs)).
+Proof. unfold apply_qops. induction qs as [|q qs IH]; simpl; intros s r H; [exact H|]. apply IH, qop_queue_incl, H. Qed.
+Lemma qop_next s q : w_next s <= w_next (apply_qop s q). Proof. destruct q; simpl; lia. Qed.
+Lemma qops_next qs : forall s, w_next s <= w_next (apply_qops s qs).
+Proof. unfold apply_qops. induction qs as [|q qs IH]; simpl; intros s; [lia|]. specialize (IH (apply_qop s q)). pose proof (qop_next s q). lia. Qed.
+
+Lemma effect_queue_incl s e r : In r (w_queue s) -> In r (w_queue (apply_effect s e)).
+Proof.
+  destruct e; simpl; auto.
+  - apply qops_queue_incl.
+  - destruct fresh; auto.
+  - intros H. apply qops_queue_incl. exact H.
+  - destruct (is_complete (w_status s)); auto.
+Qed.
+
+Lemma effect_next s e : w_next s <= w_next (apply_effect s e).
+Proof.
+  destruct e; simpl; try lia.
+  - apply qops_next.
+  - destruct fresh; simpl; lia.
+  - apply (qops_next qs (put_stage j obj s)).
+  - destruct (is_complete (w_status s)); simpl; lia.
+Qed.
+
+Lemma qops_push_in qs : forall s m, In (QPush m) qs -> exists r, In r (w_queue (apply_qops s qs)) /\ q_msg r = m /\ w_next s <= q_id r.
+Proof.
+  unfold apply_qops. induction qs as [|q qs IH]; simpl; intros s m H; [contradiction|].
+  destruct H as [->|H].
+  - exists {| q_id := w_next s; q_msg := m |}. split; [|split; [reflexivity|simpl; lia]].
+    apply (qops_queue_incl qs (push m s)). simpl. apply in_or_app. right. left. reflexivity.
+  - destruct (IH (apply_qop s q) m H) as [r [H1 [H2 H3]]]. exists r. split; [exact H1|]. split; [exact H2|].
+    pose proof (qop_next s q). lia.
+Qed.
+
+Lemma final_qs_pushes id ds j : In j ds -> In (QPush (MStartStage j 0)) (final_qs id ds).
+Proof.
+  intros H. unfold final_qs. right. destruct ds as [|d ds']; [contradiction|].
+  apply in_map. apply (in_map (fun d => MStartStage d 0)). exact H.
+Qed.
+
+Lemma bumped_untouched s0 s e j :
+  (match e with EPut i _ _ => i <> j | EClaim i _ _ _ => i <> j | _ => True end) ->
+  bumped s0 (apply_effect s e) j -> bumped s0 s j.
+Proof.
+  intros H [H1 H2]. unfold bumped, version_of in *. rewrite not_started_other in H1 by exact H.
+  rewrite effect_stages_other in H2 by exact H. auto.
+Qed.
+
+Lemma region_step' s w k e p id b :
+  w_kind w = WComplete id b -> wfw w -> Fresh s w -> region s id b (w_pc w) -> step_worker s w = Some (k, e, p) ->
+  region (apply_effect s e) id b p.
+Proof.
+  intros Hk HW HF HR Hs. pose proof (region_step _ _ _ _ _ _ _ Hk HW HR Hs) as R.
+  assert ((forall id', w_kind w = WComplete id' b -> match w_pc w with PCas _ _ _ (MEnd _) _ _ _ => False | _ => True end) ->
+          region (apply_effect s e) id b p) as Hgen.
+  { intros Hside. eapply region_transport; [eapply statics_effect; eauto| |exact R].
+    intros x Hx. eapply cok_effect; eauto. }
+  destruct (w_pc w) eqn:Hpc; try (apply Hgen; intros; exact I).
+  destruct m; try (apply Hgen; intros; exact I).
+  (* the final commit *)
+  unfold step_worker in Hs. rewrite Hpc in Hs. destruct (cas_ok s j base phase); inversion Hs; subst.
+  - unfold wfw in HW. rewrite Hpc in HW. simpl in HW. destruct HW as [_ [_ [_ [_ [_ ->]]]]]. exact I.
+  - exact R.
+Qed.
+
+(* one step of a token worker: it is still a token worker, or its final commit has just pushed StartStage(j) *)
+Lemma tok_step s w k e p id b j :
+  w_kind w = WComplete id b -> wfw w -> Fresh s w -> region s id b (w_pc w) ->
+  tokpc (w_pc w) = true -> (w_pc w = PRaised \/ exists x, cok s b x) -> In j (downstream s b) ->
+  step_worker s w = Some (k, e, p) ->
+  (tokpc p = true /\ (p = PRaised \/ exists x, cok (apply_effect s e) b x)) \/
+  (exists r, In r (w_queue (apply_effect s e)) /\ q_msg r = MStartStage j 0 /\ w_next s <= q_id r).
+Proof.
+  intros Hk HW HF HR Ht Hc Hj Hs.
+  assert (forall x, (match w_pc w with PCas _ _ _ (MEnd _) _ _ _ => False | _ => True end) -> cok s b x -> cok (apply_effect s e) b x) as Hkeep.
+  { intros x Hside Hx. eapply cok_effect; eauto. }
+  unfold step_worker in Hs. rewrite Hk in Hs. revert HR Ht Hc Hkeep Hs.
+  destruct (w_pc w) eqn:Hpc; simpl; intros HR Ht Hc Hkeep Hs; try discriminate.
+  - (* PCas *)
+    destruct m; try discriminate.
+    + (* tracking CAS *)
+      destruct HR as [_ [[x Hx] [To [Tf _]]]].
+      destruct (cas_ok s j0 base phase); inversion Hs; subst; left; (split; [assumption|]); right; exists x; [apply Hkeep; auto|exact Hx].
+    + (* the final commit *)
+      destruct HR as [_ HR]. destruct (HR Ht) as [Hx [-> Tf]].
+      destruct (cas_ok s j0 base phase); inversion Hs; subst.
+      * right. simpl.
+        destruct (qops_push_in (final_qs id (downstream s b)) (put_stage j0 (apply_mod (MEnd x) base) s) (MStartStage j 0)
+                   (final_qs_pushes id _ j Hj)) as [r [H1 [H2 H3]]].
+        exists r. auto.
+      * left. split; [exact Tf|]. right. exists x. exact Hx.
+  - (* CReadStage: a re-run *)
+    destruct Hc as [Hc|[x Hx]]; [discriminate|].
+    destruct (cok_read s (WComplete id b) outer id b x Hx) as [row [_ Hr]].
+    inversion Hs; subst. rewrite Hr. left. split; [reflexivity|]. right. exists x. exact Hx.
+  - (* CReadDown *)
+    destruct HR as [Ho Hx]. inversion Hs; subst. left.
+    destruct (region_track s id b outer st x (downstream s b) (filter (tracked_join s) (downstream s b)) track_tries Ho Hx eq_refl) as [_ T].
+    { intros d Hd. apply filter_In in Hd. tauto. }
+    split; [exact T|]. right. exists x. exact Hx.
+  - (* CTrackRead *)
+    destruct HR as [Ho [Hx [Hds Hi]]]. inversion Hs; subst. left. split; [|right; exists x; exact Hx].
+    unfold track_read. destruct todo as [|d rest]; [apply (region_final s id b outer st x _ Ho Hx eq_refl)|].
+    destruct (downstream_some s b d (Hi d (or_introl eq_refl))) as [fr Hfr]. rewrite Hfr.
+    destruct (mem_nat b (s_branches fr)); [|reflexivity].
+    apply (region_track s id b outer st x _ rest track_tries Ho Hx eq_refl). intros y Hy. apply Hi. right. exact Hy.
+Qed.
+
+Theorem jb_step s0 ks j c n :
+  no_signal ks -> NoDup (flat_map complete_of ks) ->
+  FreshAll c -> WfAll c -> jb_inv s0 ks j c -> jb_inv s0 ks j (step_cfg c n).
+Proof.
+  intros Hns Hnd HF HW [Hkinds Hreg Hnext Htok].
+  pose proof (kinds_step c n) as Hk'.
+  unfold step_cfg in *. destruct (nth_error (snd c) n) as [w|] eqn:Hn; [|constructor; auto].
+  destruct (step_worker (fst c) w) as [[[k e] p]|] eqn:Hs; [|constructor; auto]. simpl in *.
+  set (s := fst c) in *. set (ws := snd c) in *.
+  assert (Fresh s w) as HFw by (unfold FreshAll in HF; rewrite Forall_forall in HF; apply HF; eapply nth_error_In; eauto).
+  assert (wfw w) as HWw by (unfold WfAll in HW; rewrite Forall_forall in HW; apply HW; eapply nth_error_In; eauto).
+  pose proof (statics_effect _ _ _ _ _ HFw Hs) as Hst.
+  (* cok of ANOTHER CompleteStage worker's stage survives this step: at most one CompleteStage worker per stage *)
+  assert (forall n2 w2 id2 b2 x, nth_error ws n2 = Some w2 -> w_kind w2 = WComplete id2 b2 -> n2 <> n ->
+                                 cok s b2 x -> cok (apply_effect s e) b2 x) as Hother.
+  { intros n2 w2 id2 b2 x Hn2 Hk2 Hne Hx. eapply cok_effect; eauto.
+    intros id' Hkw. exfalso. apply Hne.
+    eapply (nodup_flat_map_index complete_of ks n2 n (w_kind w2) (w_kind w) b2 Hnd).
+    - eapply kinds_nth; eauto.
+    - eapply kinds_nth; eauto.
+    - rewrite Hk2. left. reflexivity.
+    - rewrite Hkw. left. reflexivity. }
+  constructor; simpl.
+  - rewrite Hk'. exact Hkinds.
+  - (* regions *)
+    intros n2 w2 Hn2. destruct (Nat.eq_dec n2 n) as [->|Hne].
+    + rewrite (lset_same _ _ _ _ Hn) in Hn2. inversion Hn2; subst w2. unfold regionw. simpl.
+      destruct (w_kind w) eqn:Hkw; try exact I.
+      eapply region_step'; eauto. specialize (Hreg n w Hn). unfold regionw in Hreg. rewrite Hkw in Hreg. exact Hreg.
+    + rewrite lset_other in Hn2 by congruence. specialize (Hreg n2 w2 Hn2). unfold regionw in *.
+      destruct (w_kind w2) eqn:Hk2; try exact I.
+      eapply region_transport; [exact Hst| |exact Hreg]. intros x Hx. eapply Hother; eauto.
+  - pose proof (effect_next s e). lia.
+  - (* the token *)
+    intros Hb.
+    assert (forall n0 w0 id0 b0, nth_error ws n0 = Some w0 -> w_kind w0 = WComplete id0 b0 -> In j (downstream s b0) ->
+              tokpc (w_pc w0) = true -> (w_pc w0 = PRaised \/ exists x, cok s b0 x) ->
+              tok_queue s0 (apply_effect s e) j \/ tok_worker (apply_effect s e, list_set ws n {| w_kind := w_kind w; w_pc := p |}) j) as Hevolve.
+    { intros n0 w0 id0 b0 Hn0 Hk0 Hj0 Ht0 Hc0.
+      destruct (Nat.eq_dec n0 n) as [->|Hne].
+      - rewrite Hn in Hn0. inversion Hn0; subst w0.
+        pose proof (Hreg n w Hn) as HR. unfold regionw in HR. rewrite Hk0 in HR.
+        destruct (tok_step _ _ _ _ _ _ _ j Hk0 HWw HFw HR Ht0 Hc0 Hj0 Hs) as [[Tp Cp]|[r [R1 [R2 R3]]]].
+        + right. exists n, {| w_kind := w_kind w; w_pc := p |}, id0, b0. cbn [fst snd w_kind w_pc].
+          split; [eapply lset_same; eauto|]. split; [exact Hk0|].
+          split; [rewrite (downstream_statics _ _ b0 Hst); exact Hj0|]. split; assumption.
+        + left. exists r. split; [exact R1|]. split; [exact R2|]. lia.
+      - right. exists n0, w0, id0, b0. cbn [fst snd]. split; [rewrite lset_other by congruence; exact Hn0|].
+        split; [exact Hk0|]. split; [rewrite (downstream_statics _ _ b0 Hst); exact Hj0|]. split; [exact Ht0|].
+        destruct Hc0 as [Hc0|[x Hx]]; [left; exact Hc0|right; exists x; eapply Hother; eauto]. }
+    (* did this step write row j ? *)
+    assert ((match e with EPut i _ _ => i <> j | EClaim i _ _ _ => i <> j | _ => True end) ->
+            tok_queue s0 (apply_effect s e) j \/ tok_worker (apply_effect s e, list_set ws n {| w_kind := w_kind w; w_pc := p |}) j) as Huntouched.
+    { intros Hu. destruct (Htok (bumped_untouched _ _ _ _ Hu Hb)) as [[r [R1 [R2 R3]]]|[n0 [w0 [id0 [b0 [Hn0 [Hk0 [Hj0 [Ht0 Hc0]]]]]]]]].
+      - left. exists r. split; [apply effect_queue_incl; exact R1|auto].
+      - eapply Hevolve; eauto. }
+    destruct e as [|qs|i cl obj fr|i new qs|]; try (apply Huntouched; exact I).
+    + (* a claim of row i *)
+      destruct (Nat.eq_dec i j) as [->|Hne]; [|apply Huntouched; exact Hne].
+      exfalso. destruct Hb as [Hb _]. unfold not_started in Hb.
+      destruct (step_claim_sem _ _ _ _ _ _ _ _ HFw Hs) as [id [retry [row [_ [_ [Hr Hc]]]]]].
+      apply claim_step_claim in Hc. destruct Hc as [_ [-> _]].
+      erewrite effect_stage_claim in Hb by exact Hr. rewrite claim_obj_status in Hb. discriminate.
+    + (* a store to row i *)
+      destruct (Nat.eq_dec i j) as [->|Hne]; [|apply Huntouched; exact Hne].
+      destruct (step_put_sem _ _ _ _ _ _ _ HFw Hs) as [row [m [base [ph [ok [fl [Hpc [Hr [-> [-> ->]]]]]]]]]].
+      destruct Hb as [Hb _]. unfold not_started in Hb. erewrite effect_stage_put in Hb by exact Hr. apply status_eqb_eq in Hb.
+      pose proof HWw as HWw'. unfold wfw in HWw'. rewrite Hpc in HWw'. simpl in HWw'. destruct HWw' as [_ [_ HWm]].
+      destruct m.
+      * (* plan commit: the object is RUNNING *)
+        exfalso. destruct HWm as [_ [Hrun _]]. simpl in Hb. congruence.
+      * (* wait-exhausted TERMINAL *)
+        exfalso. simpl in Hb. destruct (status_eqb (s_status row) NOT_STARTED) eqn:E; simpl in Hb; [discriminate|].
+        rewrite Hb in E. discriminate.
+      * (* join tracking by the CompleteStage worker of branch b: it still has to push StartStage(j) *)
+        destruct HWm as [[id Hkw] _].
+        pose proof (Hreg n w Hn) as HR. unfold regionw in HR. rewrite Hkw, Hpc in HR. simpl in HR.
+        destruct HR as [Hj0 [[x Hx] [To [Tf _]]]].
+        right. exists n, {| w_kind := w_kind w; w_pc := ok |}, id, b. cbn [fst snd w_kind w_pc].
+        split; [eapply lset_same; eauto|]. split; [exact Hkw|].
+        split; [rewrite (downstream_statics _ _ b Hst); exact Hj0|]. split; [exact To|].
+        right. exists x. eapply cok_effect; eauto. intros id' _. rewrite Hpc. exact I.
+      * (* an end status is never NOT_STARTED *)
+        exfalso. destruct HWm as [_ [He _]]. simpl in Hb. rewrite He in Hb. simpl in Hb.
+        rewrite Hb in He. vm_compute in He. discriminate.
+      * (* a signal buffer: excluded, there is no SignalStage worker in this run *)
+        exfalso. destruct HWm as [[id [i' Hkw]] _].
+        eapply Hns. rewrite <- Hkinds. apply in_map_iff. exists w. split; [exact Hkw|]. eapply nth_error_In; eauto.
+Qed.
+
+(* the structural part of the invariant: holds at spawn, kept by every step *)
+Record structural (ks : list wkind) (c : cfg) : Prop := {
+  st_fresh : FreshAll c;
+  st_wf : WfAll c;
+  st_kinds : map w_kind (snd c) = ks;
+  st_region : forall n w, nth_error (snd c) n = Some w -> regionw (fst c) w;
+}.
+
+Lemma structural_spawn s ks : structural ks (s, map spawn ks).
+Proof.
+  constructor.
+  - apply fresh_spawn.
+  - apply wf_spawn.
+  - simpl. rewrite map_map. simpl. apply map_id.
+  - simpl. intros n w Hn. apply nth_error_In in Hn. apply in_map_iff in Hn. destruct Hn as [k [<- _]].
+    unfold regionw, spawn. simpl. destruct k; simpl; auto.
+Qed.
+
+Lemma jb_of_structural ks j c : structural ks c -> jb_inv (fst c) ks j c.
+Proof.
+  intros [HF HW Hk Hr]. constructor; auto. intros [_ H]. exfalso. apply H. reflexivity.
+Qed.
+
+Lemma jb_run s0 ks j sched :
+  no_signal ks -> NoDup (flat_map complete_of ks) ->
+  forall c, FreshAll c -> WfAll c -> jb_inv s0 ks j c -> jb_inv s0 ks j (run_conc sched c).
+Proof.
+  intros Hns Hnd. apply (run_conc_cfg_inv (jb_inv s0 ks j)). intros c n HF HW HI. apply jb_step; auto.
+Qed.
+
+Lemma structural_run ks sched :
+  no_signal ks -> NoDup (flat_map complete_of ks) -> forall c, structural ks c -> structural ks (run_conc sched c).
+Proof.
+  intros Hns Hnd c Hst. pose proof (jb_run (fst c) ks 0 sched Hns Hnd c (st_fresh _ _ Hst) (st_wf _ _ Hst) (jb_of_structural ks 0 c Hst)) as [H1 H2 _ _].
+  constructor; auto; [apply fresh_run, (st_fresh _ _ Hst)|].
+  clear -Hst. destruct Hst as [_ HW _ _]. revert c HW. unfold run_conc. induction sched as [|n r IH]; simpl; intros c HW; [exact HW|].
+  apply IH, wf_step_cfg, HW.
+Qed.
+
+(* C04_join_bump_safe.  From ANY configuration c reached by a run of StartStage / CompleteStage workers and sweeps (no
+   SignalStage worker; at most one CompleteStage worker per stage), for ANY continuation schedule: whenever the join stage
+   j is still NOT_STARTED and its version differs from the one it had in c, a StartStage(j) pushed since c is in the queue
+   (and no worker of the run handles it), or a CompleteStage worker of an upstream of j is between its first read and its
+   final commit - which pushes StartStage(j) (tok_step) - or raised and keeps its message. *)
+Theorem join_bump_safe ks j c sched :
+  no_signal ks -> NoDup (flat_map complete_of ks) -> structural ks c ->
+  let c' := run_conc sched c in
+  bumped (fst c) (fst c') j -> tok_queue (fst c) (fst c') j \/ tok_worker c' j.
+Proof.
+  intros Hns Hnd Hst c'.
+  exact (jb_tok _ _ _ _ (jb_run (fst c) ks j sched Hns Hnd c (st_fresh _ _ Hst) (st_wf _ _ Hst) (jb_of_structural ks j c Hst))).
+Qed.
+
+(* a claim that fails with the ConcurrencyError path on a stage that is still NOT_STARTED: the row is newer than the snapshot *)
+Lemma conc_error_means_newer s w id j retry st row :
+  Fresh s w -> w_kind w = WStart id j retry -> w_pc w = SClaim st ->
+  get_stage s j = Some row -> s_status row = NOT_STARTED -> s_status st = NOT_STARTED ->
+  claim_step s id j retry st = (ENone, PMark) ->
+  (forall k o, s_mutex st = Some k -> claim_lookup (w_claims s) true k = Some o -> o = j \/ owner_gone_or_complete s o = true) ->
+  s_choice st = None ->
+  (s_version st < s_version row)%Z.
+Proof.
+  intros HF Hk Hpc Hr Hrs Hss Hc Hmx Hch.
+  assert (fresh_obj s (j, st)) as [row' [Hr' [Hle Heq]]].
+  { unfold Fresh in HF. rewrite Forall_forall in HF. apply HF. rewrite Hk, Hpc. simpl. left. reflexivity. }
+  simpl in *. rewrite Hr in Hr'. inversion Hr'; subst row'.
+  destruct (Z.eq_dec (s_version st) (s_version row)) as [E|E]; [|lia]. exfalso.
+  revert Hc. unfold claim_step. rewrite eff_mutex, eff_choice, eff_status, Hch, Hss, Hr.
+  assert (fst (match s_mutex st with Some k => acquire_claim s true k j mutex_claim_steals | None => (true, w_claims s) end) = true) as Ha.
+  { destruct (s_mutex st) as [k|] eqn:Hm; [|reflexivity]. apply acquire_succeeds. intros o Ho.
+    destruct (Hmx k o eq_refl Ho); auto. }
+  rewrite Ha. simpl. rewrite E, Z.eqb_refl, Hrs. simpl. discriminate.
 Qed.
